@@ -5,7 +5,8 @@ T = "RsslVerif.Thm.C02."
 TS = "RsslVerif.Thm.C02Sem."
 SEM_THEOREMS = ["msl_exporter_shape_as_modelled", "msl_op_table_is_identity", "msl_literal_arms_same_as_hlsl", "msl_genLiteral_eq",
                 "gen_sem_expr", "gen_sem_expr_plain", "gen_sem_args", "gen_sem_stmt", "gen_sem_stmts", "gen_sem_func",
-                "trampoline_copy_semantics", "gen_sem_program_partial", "gen_sem_signatures"]
+                "trampoline_copy_semantics", "gen_sem_program_partial", "gen_sem_signatures",
+                "int_min_literal_changes_meaning", "literal_arithmetic_changes_meaning", "inout_copy_in_order_changes_meaning"]
 
 POSITIONS = ["xs", "vi", "ai", "bl", "ic", "ib", "ec", "et", "ee", "fi", "fd", "fc", "fa", "fb", "wc", "wb", "db", "dc",
              "sx", "sb", "rt", "tc", "tt", "tf", "sq", "sw", "ct", "si", "ia", "cs", "op", "wr"]
